@@ -168,14 +168,152 @@ proof fn lemma_ls_ok_counts() ensures ls_ok::<(usize, &usize), CmpCounts>(CmpCou
     assert forall|x: (usize, &usize), y: (usize, &usize)| #[trigger] ls_le::<(usize, &usize), CmpCounts>(CmpCounts, x, y) || ls_le::<(usize, &usize), CmpCounts>(CmpCounts, y, x) by { cntx::ls_le_counts(x, y); cntx::ls_le_counts(y, x); }
     assert forall|x: (usize, &usize), y: (usize, &usize), z: (usize, &usize)| #[trigger] ls_le::<(usize, &usize), CmpCounts>(CmpCounts, x, y) && #[trigger] ls_le::<(usize, &usize), CmpCounts>(CmpCounts, y, z) implies ls_le::<(usize, &usize), CmpCounts>(CmpCounts, x, z) by { cntx::ls_le_counts(x, y); cntx::ls_le_counts(y, z); cntx::ls_le_counts(x, z); }
 }
+// ---- counting lemmas (C18): kept out of `prepare` so that its loop bodies stay small
+pub open spec fn strictly_inc(s: Seq<usize>) -> bool { forall|a: int, b: int| 0 <= a < b < s.len() ==> #[trigger] s[a] < #[trigger] s[b] }
+proof fn lemma_cnt_bounds(dict: Map<[char; 3], Vec<usize>>, gs: Seq<[char; 3]>, j: int, n: int)
+    requires 0 <= n
+    ensures 0 <= shared_cnt(dict, gs, j, n) <= n
+    decreases n
+{ if n > 0 { lemma_cnt_bounds(dict, gs, j, n - 1); } }
+// the counter is positive exactly when one of the grams lists the position
+proof fn lemma_cnt_pos(dict: Map<[char; 3], Vec<usize>>, gs: Seq<[char; 3]>, j: int, n: int)
+    requires 0 <= n
+    ensures shared_cnt(dict, gs, j, n) > 0 <==> exists|t: int| 0 <= t < n && #[trigger] posted(dict, gs[t], j)
+    decreases n
+{
+    if n > 0 {
+        lemma_cnt_pos(dict, gs, j, n - 1); lemma_cnt_bounds(dict, gs, j, n - 1);
+        if exists|t: int| 0 <= t < n && #[trigger] posted(dict, gs[t], j) {
+            let t = choose|t: int| 0 <= t < n && #[trigger] posted(dict, gs[t], j);
+            if t < n - 1 { assert(exists|t: int| 0 <= t < n - 1 && #[trigger] posted(dict, gs[t], j)); }
+        }
+        if shared_cnt(dict, gs, j, n) > 0 {
+            if posted(dict, gs[n - 1], j) { } else { let t = choose|t: int| 0 <= t < n - 1 && #[trigger] posted(dict, gs[t], j); assert(posted(dict, gs[t], j)); }
+        }
+    }
+}
+// entry n of a strictly increasing list does not occur before n
+proof fn lemma_cnt_fresh(ixs: Seq<usize>, n: int)
+    requires 0 <= n < ixs.len(), strictly_inc(ixs)
+    ensures !in_prefix(ixs, n, ixs[n] as int)
+{ if in_prefix(ixs, n, ixs[n] as int) { let u = choose|u: int| 0 <= u < n && #[trigger] ixs[u] == ixs[n] as int; assert(ixs[u] < ixs[n]); } }
+// one step of the inner counting loop
+proof fn lemma_cnt_inner(dict: Map<[char; 3], Vec<usize>>, gs: Seq<[char; 3]>, len: int, i0: int, ixs: Seq<usize>, i1: int, c0: Seq<usize>, c1: Seq<usize>)
+    requires 0 <= i1 < ixs.len(), strictly_inc(ixs), 0 <= i0, c0.len() == len, ixs[i1] < len, c0[ixs[i1] as int] + 1 <= usize::MAX,
+        c1 == c0.update(ixs[i1] as int, (c0[ixs[i1] as int] + 1) as usize),
+        forall|j: int| 0 <= j < len ==> #[trigger] c0[j] == shared_cnt(dict, gs, j, i0) + (if in_prefix(ixs, i1, j) { 1int } else { 0int }),
+    ensures forall|j: int| 0 <= j < len ==> #[trigger] c1[j] == shared_cnt(dict, gs, j, i0) + (if in_prefix(ixs, i1 + 1, j) { 1int } else { 0int }),
+{
+    let ix = ixs[i1] as int;
+    lemma_cnt_fresh(ixs, i1);
+    assert forall|j: int| 0 <= j < len implies #[trigger] c1[j] == shared_cnt(dict, gs, j, i0) + (if in_prefix(ixs, i1 + 1, j) { 1int } else { 0int }) by {
+        if j == ix {
+            assert(ixs[i1] == j);
+            assert(in_prefix(ixs, i1 + 1, j));
+        } else {
+            if in_prefix(ixs, i1 + 1, j) { let u = choose|u: int| 0 <= u < i1 + 1 && #[trigger] ixs[u] == j; assert(u < i1); assert(in_prefix(ixs, i1, j)); }
+            if in_prefix(ixs, i1, j) { let u = choose|u: int| 0 <= u < i1 && #[trigger] ixs[u] == j; assert(in_prefix(ixs, i1 + 1, j)); }
+        }
+    }
+}
+// after the posting list of gram i0 (or when the gram has none) the counters are the counts over i0 + 1 grams
+proof fn lemma_cnt_gram(dict: Map<[char; 3], Vec<usize>>, gs: Seq<[char; 3]>, len: int, i0: int, c: Seq<usize>)
+    requires 0 <= i0 < gs.len(), c.len() == len,
+        dict.contains_key(gs[i0]) ==> forall|j: int| 0 <= j < len ==> #[trigger] c[j] == shared_cnt(dict, gs, j, i0) + (if in_prefix(dict[gs[i0]]@, dict[gs[i0]]@.len() as int, j) { 1int } else { 0int }),
+        !dict.contains_key(gs[i0]) ==> forall|j: int| 0 <= j < len ==> #[trigger] c[j] == shared_cnt(dict, gs, j, i0),
+    ensures forall|j: int| 0 <= j < len ==> #[trigger] c[j] == shared_cnt(dict, gs, j, i0 + 1),
+{
+    assert forall|j: int| 0 <= j < len implies #[trigger] c[j] == shared_cnt(dict, gs, j, i0 + 1) by {
+        if dict.contains_key(gs[i0]) {
+            let l = dict[gs[i0]]@;
+            assert(in_prefix(l, l.len() as int, j) == posted(dict, gs[i0], j));
+        } else {
+            assert(!posted(dict, gs[i0], j));
+        }
+    }
+}
 // position j occurs among the first n entries of a posting list
 pub open spec fn in_prefix(ixs: Seq<usize>, n: int, j: int) -> bool { exists|u: int| 0 <= u < n && #[trigger] ixs[u] == j }
 // the candidate list against the counters: from the counting invariants of `prepare` to its contract
+// the tail of prepare, part 1: the order of the selection in terms of the counters (LS-ord with the comparator tag CmpCounts)
+proof fn lemma_tail_rank(len0: int, counts: Seq<usize>, items: Seq<(usize, &usize)>, sel: Seq<(usize, &usize)>, idx: Seq<int>, r: Seq<usize>)
+    requires counts.len() == len0,
+        forall|m: int| 0 <= m < items.len() ==> (#[trigger] items[m]).0 < len0 && *items[m].1 == counts[items[m].0 as int],
+        forall|j: int| 0 <= j < len0 && counts[j] > 0 ==> exists|m: int| 0 <= m < items.len() && (#[trigger] items[m]).0 == j,
+        selection(sel, items, idx), ls_best(sel, items, idx, CmpCounts), ls_sorted(sel, CmpCounts),
+        r.len() == sel.len(), forall|k: int| 0 <= k < r.len() ==> #[trigger] r[k] == sel[k].0,
+    ensures
+        forall|k: int| 0 <= k < r.len() ==> (#[trigger] r[k]) < len0,
+        forall|a: int, b: int| 0 <= a <= b < r.len() ==> counts[#[trigger] r[a] as int] >= counts[#[trigger] r[b] as int],
+        forall|j: int| 0 <= j < len0 && !#[trigger] r.contains(j as usize) && r.len() > 0 ==> counts[r.last() as int] >= counts[j],
+{
+    assert forall|k: int| 0 <= k < r.len() implies (#[trigger] r[k]) < len0 && *sel[k].1 == counts[r[k] as int] by { assert(sel[k] == items[idx[k]]); }
+    assert forall|a: int, b: int| 0 <= a <= b < r.len() implies counts[#[trigger] r[a] as int] >= counts[#[trigger] r[b] as int] by {
+        cntx::ls_le_counts(sel[a], sel[b]);
+        assert(ls_le(CmpCounts, sel[a], sel[b]));
+        assert(*sel[a].1 == counts[r[a] as int] && *sel[b].1 == counts[r[b] as int]);
+    }
+    assert forall|j: int| 0 <= j < len0 && !#[trigger] r.contains(j as usize) && r.len() > 0 implies counts[r.last() as int] >= counts[j] by {
+        if counts[j] > 0 {
+            let m = choose|m: int| 0 <= m < items.len() && (#[trigger] items[m]).0 == j;
+            if idx.contains(m) { let k = choose|k: int| 0 <= k < idx.len() && idx[k] == m; assert(sel[k] == items[idx[k]]); assert(r[k] == j as usize); assert(false); }
+            let z = r.len() - 1;
+            cntx::ls_le_counts(sel[z], items[m]);
+            assert(ls_le(CmpCounts, sel.last(), items[m]));
+            assert(*sel[z].1 == counts[r[z] as int]);
+        }
+    }
+}
+// part 2: the selected positions as a selection of the increasing list of positions with a positive counter
+proof fn lemma_tail_sel(len0: int, counts: Seq<usize>, items: Seq<(usize, &usize)>, sel: Seq<(usize, &usize)>, idx: Seq<int>, r: Seq<usize>, ps: Seq<int>)
+    requires counts.len() == len0, ps == Seq::new(items.len(), |m: int| items[m].0 as int),
+        forall|m: int| 0 <= m < items.len() ==> (#[trigger] items[m]).0 < len0 && counts[items[m].0 as int] > 0,
+        forall|a: int, b: int| 0 <= a < b < items.len() ==> (#[trigger] items[a]).0 < (#[trigger] items[b]).0,
+        forall|j: int| 0 <= j < len0 && counts[j] > 0 ==> exists|m: int| 0 <= m < items.len() && (#[trigger] items[m]).0 == j,
+        selection(sel, items, idx), r.len() == sel.len(), forall|k: int| 0 <= k < r.len() ==> #[trigger] r[k] == sel[k].0,
+    ensures
+        forall|m: int| 0 <= m < ps.len() ==> 0 <= #[trigger] ps[m] < len0 && counts[ps[m]] > 0,
+        forall|a: int, b: int| 0 <= a < b < ps.len() ==> #[trigger] ps[a] < #[trigger] ps[b],
+        forall|j: int| 0 <= j < len0 && counts[j] > 0 ==> exists|m: int| 0 <= m < ps.len() && #[trigger] ps[m] == j,
+        idx.len() == r.len(), idx.no_duplicates(), forall|k: int| 0 <= k < r.len() ==> 0 <= #[trigger] idx[k] < ps.len() && r[k] as int == ps[idx[k]],
+        r.len() == ps.len() ==> forall|m: int| 0 <= m < ps.len() ==> idx.contains(m),
+{
+    assert forall|k: int| 0 <= k < r.len() implies 0 <= #[trigger] idx[k] < ps.len() && r[k] as int == ps[idx[k]] by { assert(sel[k] == items[idx[k]]); }
+    if r.len() == ps.len() {
+        lemma_selection_full(sel, items, idx);
+        assert forall|m: int| 0 <= m < ps.len() implies idx.contains(m) by { assert(sel.contains(items[m])); }
+    }
+    assert forall|j: int| 0 <= j < len0 && counts[j] > 0 implies exists|m: int| 0 <= m < ps.len() && #[trigger] ps[m] == j by {
+        let m = choose|m: int| 0 <= m < items.len() && (#[trigger] items[m]).0 == j;
+        assert(ps[m] == j);
+    }
+    assert forall|m: int| 0 <= m < ps.len() implies 0 <= #[trigger] ps[m] < len0 && counts[ps[m]] > 0 by { assert(items[m].0 < len0); }
+    assert forall|a: int, b: int| 0 <= a < b < ps.len() implies #[trigger] ps[a] < #[trigger] ps[b] by { assert(items[a].0 < items[b].0); }
+}
+// the tail of prepare: from the selection of (position, counter) items to the contract of the candidate list
+proof fn lemma_prepare_tail(dict0: Map<[char; 3], Vec<usize>>, len0: int, qw: Seq<WordShape>, qc: Seq<char>, size: int, grams: Seq<[char; 3]>, counts: Seq<usize>,
+        items: Seq<(usize, &usize)>, sel: Seq<(usize, &usize)>, idx: Seq<int>, r: Seq<usize>)
+    requires counts.len() == len0, len0 >= 0, size >= 0, grams.no_duplicates(),
+        forall|g: [char; 3]| grams.contains(g) <==> has_gram(qw, qc, g@),
+        forall|j: int| 0 <= j < len0 ==> #[trigger] counts[j] == shared_cnt(dict0, grams, j, grams.len() as int),
+        // the items are the positions with a positive counter, in increasing order, each with its counter
+        forall|m: int| 0 <= m < items.len() ==> (#[trigger] items[m]).0 < len0 && counts[items[m].0 as int] > 0 && *items[m].1 == counts[items[m].0 as int],
+        forall|a: int, b: int| 0 <= a < b < items.len() ==> (#[trigger] items[a]).0 < (#[trigger] items[b]).0,
+        forall|j: int| 0 <= j < len0 && counts[j] > 0 ==> exists|m: int| 0 <= m < items.len() && (#[trigger] items[m]).0 == j,
+        // the selection (LS-sel, LS-ord with the comparator tag CmpCounts) and the projected result
+        selection(sel, items, idx), ls_best(sel, items, idx, CmpCounts), ls_sorted(sel, CmpCounts),
+        sel.len() == (if items.len() < size * 10 { items.len() as int } else { size * 10 }),
+        r.len() == sel.len(), forall|k: int| 0 <= k < r.len() ==> #[trigger] r[k] == sel[k].0,
+    ensures prepare_post(dict0, len0, qw, qc, size, r),
+{
+    let ps = Seq::new(items.len(), |m: int| items[m].0 as int);
+    lemma_tail_rank(len0, counts, items, sel, idx, r);
+    lemma_tail_sel(len0, counts, items, sel, idx, r, ps);
+    lemma_prepare_post(dict0, len0, qw, qc, size, grams, counts, ps, idx, r);
+}
 proof fn lemma_prepare_post(dict0: Map<[char; 3], Vec<usize>>, len0: int, qw: Seq<WordShape>, qc: Seq<char>, size: int, grams: Seq<[char; 3]>, counts: Seq<usize>, ps: Seq<int>, idx: Seq<int>, r: Seq<usize>)
     requires counts.len() == len0, len0 >= 0,
         forall|g: [char; 3]| grams.contains(g) <==> has_gram(qw, qc, g@),
-        forall|j: int| 0 <= j < len0 && #[trigger] counts[j] > 0 ==> exists|t: int| 0 <= t < grams.len() && #[trigger] posted(dict0, grams[t], j),
-        forall|t: int, j: int| 0 <= t < grams.len() && 0 <= j < len0 && #[trigger] posted(dict0, grams[t], j) ==> counts[j] > 0,
         forall|m: int| 0 <= m < ps.len() ==> 0 <= #[trigger] ps[m] < len0 && counts[ps[m]] > 0,
         forall|a: int, b: int| 0 <= a < b < ps.len() ==> #[trigger] ps[a] < #[trigger] ps[b],
         forall|j: int| 0 <= j < len0 && counts[j] > 0 ==> exists|m: int| 0 <= m < ps.len() && #[trigger] ps[m] == j,
@@ -189,6 +327,9 @@ proof fn lemma_prepare_post(dict0: Map<[char; 3], Vec<usize>>, len0: int, qw: Se
         forall|j: int| 0 <= j < len0 && !#[trigger] r.contains(j as usize) && r.len() > 0 ==> counts[r.last() as int] >= counts[j],
     ensures prepare_post(dict0, len0, qw, qc, size, r),
 {
+    // a counter is positive exactly when one of the query's grams lists the position
+    assert forall|j: int| 0 <= j < len0 && #[trigger] counts[j] > 0 implies exists|t: int| 0 <= t < grams.len() && #[trigger] posted(dict0, grams[t], j) by { lemma_cnt_pos(dict0, grams, j, grams.len() as int); }
+    assert forall|t: int, j: int| 0 <= t < grams.len() && 0 <= j < len0 && #[trigger] posted(dict0, grams[t], j) implies counts[j] > 0 by { lemma_cnt_pos(dict0, grams, j, grams.len() as int); }
     assert forall|j: int| 0 <= j < len0 implies (#[trigger] shares(dict0, qw, qc, j) <==> counts[j] > 0) by {
         if shares(dict0, qw, qc, j) {
             let g = choose|g: [char; 3]| has_gram(qw, qc, g@) && #[trigger] posted(dict0, g, j);
@@ -359,77 +500,36 @@ impl TrigramIndex {
         let ghost qc = query.chars@;
         let __end0 = grams.len();
         for __i0 in 0..__end0
-            invariant __end0 == grams@.len(), counts@.len() == len0, dict@ == dict0, postings_wf(dict0, len0),
-                forall|j: int| 0 <= j < counts@.len() ==> #[trigger] counts@[j] <= __i0, // [C01 C10 C18]
-                // the counter of a position is positive exactly when one of the grams seen so far lists it
-                forall|j: int| 0 <= j < len0 && #[trigger] counts@[j] > 0 ==> exists|t: int| 0 <= t < __i0 && #[trigger] posted(dict0, grams@[t], j), // [C05]
-                forall|t: int, j: int| 0 <= t < __i0 && 0 <= j < len0 && #[trigger] posted(dict0, grams@[t], j) ==> counts@[j] > 0, // [C03 C04]
-                // C18: the counter IS the number of grams seen so far that list the position
-                forall|j: int| 0 <= j < len0 ==> #[trigger] counts@[j] == shared_cnt(dict0, grams@, j, __i0 as int), // [C18]
+            invariant __end0 == grams@.len(), counts@.len() == len0, dict@ == dict0, postings_wf(dict0, len0), len0 <= 0x4000_0000,
+                // C18 (and through it C05 C03 C04 C06): the counter IS the number of grams seen so far that list the position
+                forall|j: int| 0 <= j < len0 ==> #[trigger] counts@[j] == shared_cnt(dict0, grams@, j, __i0 as int), // [C18 C05 C03 C04 C06 C01 C10]
         {
             let gram = &grams[__i0];
             if let Some(ixs) = dict.get(gram) {
                 let __end1 = ixs.len();
                 for __i1 in 0..__end1
-                    invariant __end1 == ixs@.len(), __end0 == grams@.len(), __i0 < __end0, counts@.len() == len0, dict@ == dict0, postings_wf(dict0, len0),
-                        dict0.contains_key(*gram), ixs@ == dict0[*gram]@, *gram == grams@[__i0 as int],
-                        forall|j: int| 0 <= j < counts@.len() ==> #[trigger] counts@[j] <= __i0 + 1, // [C01 C10 C18]
-                        forall|j: int| 0 <= j < counts@.len() && (forall|t: int| 0 <= t < __i1 ==> ixs@[t] != j) ==> #[trigger] counts@[j] <= __i0, // [C01 C10 C18]
-                        forall|j: int| 0 <= j < len0 && #[trigger] counts@[j] > 0 ==> (exists|t: int| 0 <= t < __i0 && #[trigger] posted(dict0, grams@[t], j)) || (exists|u: int| 0 <= u < __i1 && #[trigger] ixs@[u] == j), // [C05]
-                        forall|t: int, j: int| 0 <= t < __i0 && 0 <= j < len0 && #[trigger] posted(dict0, grams@[t], j) ==> counts@[j] > 0, // [C03 C04]
-                        forall|u: int| 0 <= u < __i1 ==> counts@[#[trigger] ixs@[u] as int] > 0, // [C03 C04]
-                        forall|j: int| 0 <= j < len0 ==> #[trigger] counts@[j] == shared_cnt(dict0, grams@, j, __i0 as int) + (if in_prefix(ixs@, __i1 as int, j) { 1int } else { 0int }), // [C18]
+                    invariant __end1 == ixs@.len(), __end0 == grams@.len(), __i0 < __end0, counts@.len() == len0, dict@ == dict0, postings_wf(dict0, len0), len0 <= 0x4000_0000,
+                        dict0.contains_key(*gram), ixs@ == dict0[*gram]@, *gram == grams@[__i0 as int], strictly_inc(ixs@),
+                        forall|j: int| 0 <= j < len0 ==> #[trigger] counts@[j] == shared_cnt(dict0, grams@, j, __i0 as int) + (if in_prefix(ixs@, __i1 as int, j) { 1int } else { 0int }), // [C18 C05 C03 C04 C06 C01 C10]
                 {
                     let ix = ixs[__i1];
                     let ghost c0 = counts@;
-                    proof { assert(ix < len0); }
+                    proof {
+                        assert(ix < len0);
+                        // the increment cannot overflow: the position has not been counted for this gram yet
+                        lemma_cnt_fresh(ixs@, __i1 as int);
+                        lemma_cnt_bounds(dict0, grams@, ix as int, __i0 as int);
+                    }
                     unsafe {
                         *counts.get_unchecked_mut(ix) += 1;
                     }
                     proof {
                         assert(counts@ == c0.update(ix as int, (c0[ix as int] + 1) as usize));
-                        assert forall|j: int| 0 <= j < len0 && #[trigger] counts@[j] > 0 implies (exists|t: int| 0 <= t < __i0 && #[trigger] posted(dict0, grams@[t], j)) || (exists|u: int| 0 <= u < __i1 + 1 && #[trigger] ixs@[u] == j) by {
-                            if j == ix { assert(ixs@[__i1 as int] == j); } else { assert(c0[j] > 0); }
-                        }
-                        assert forall|u: int| 0 <= u < __i1 + 1 implies counts@[#[trigger] ixs@[u] as int] > 0 by { if u < __i1 { assert(c0[ixs@[u] as int] > 0); } }
-                        assert forall|j: int| 0 <= j < len0 implies #[trigger] counts@[j] == shared_cnt(dict0, grams@, j, __i0 as int) + (if in_prefix(ixs@, __i1 as int + 1, j) { 1int } else { 0int }) by {
-                            if j == ix {
-                                // strictly increasing posting list: ix did not occur before
-                                assert(!in_prefix(ixs@, __i1 as int, j)) by { if in_prefix(ixs@, __i1 as int, j) { let u = choose|u: int| 0 <= u < __i1 && #[trigger] ixs@[u] == j; assert(ixs@[u] < ixs@[__i1 as int]); } }
-                                assert(ixs@[__i1 as int] == j);
-                                assert(in_prefix(ixs@, __i1 as int + 1, j));
-                            } else {
-                                if in_prefix(ixs@, __i1 as int + 1, j) { let u = choose|u: int| 0 <= u < __i1 + 1 && #[trigger] ixs@[u] == j; assert(u < __i1); assert(in_prefix(ixs@, __i1 as int, j)); }
-                                if in_prefix(ixs@, __i1 as int, j) { let u = choose|u: int| 0 <= u < __i1 && #[trigger] ixs@[u] == j; assert(in_prefix(ixs@, __i1 as int + 1, j)); }
-                            }
-                        }
+                        lemma_cnt_inner(dict0, grams@, len0, __i0 as int, ixs@, __i1 as int, c0, counts@);
                     }
                 }
             }
-            proof {
-                // after the posting list of gram __i0 (or when there is none): the two counter facts hold for __i0 + 1
-                assert forall|j: int| 0 <= j < len0 && #[trigger] counts@[j] > 0 implies exists|t: int| 0 <= t < __i0 + 1 && #[trigger] posted(dict0, grams@[t], j) by {
-                    if !(exists|t: int| 0 <= t < __i0 && #[trigger] posted(dict0, grams@[t], j)) {
-                        assert(dict0.contains_key(*gram));
-                        let u = choose|u: int| 0 <= u < dict0[*gram]@.len() && #[trigger] dict0[*gram]@[u] == j;
-                        assert(posted(dict0, grams@[__i0 as int], j));
-                    }
-                }
-                assert forall|t: int, j: int| 0 <= t < __i0 + 1 && 0 <= j < len0 && #[trigger] posted(dict0, grams@[t], j) implies counts@[j] > 0 by {
-                    if t == __i0 {
-                        let u = choose|u: int| 0 <= u < dict0[*gram]@.len() && #[trigger] dict0[*gram]@[u] == j;
-                        assert(counts@[dict0[*gram]@[u] as int] > 0);
-                    }
-                }
-                assert forall|j: int| 0 <= j < len0 implies #[trigger] counts@[j] == shared_cnt(dict0, grams@, j, __i0 as int + 1) by {
-                    if dict0.contains_key(*gram) {
-                        let l = dict0[*gram]@;
-                        assert(in_prefix(l, l.len() as int, j) == posted(dict0, grams@[__i0 as int], j));
-                    } else {
-                        assert(!posted(dict0, grams@[__i0 as int], j));
-                    }
-                }
-            }
+            proof { lemma_cnt_gram(dict0, grams@, len0, __i0 as int, counts@); }
         }
         let mut __items0: Vec<(usize, &usize)> = Vec::new();
         let mut __p0 = 0;
@@ -482,34 +582,7 @@ impl TrigramIndex {
             let __cur = ix;
             __out0.push(__cur);
         }
-        proof {
-            let r = __out0@;
-            let ps = Seq::new(items.len(), |m: int| items[m].0 as int);
-            assert forall|k: int| 0 <= k < r.len() implies 0 <= #[trigger] idx[k] < ps.len() && r[k] as int == ps[idx[k]] by { assert(r[k] == items[idx[k]].0); }
-            if r.len() == ps.len() {
-                lemma_selection_full(__sel0@, items, idx);
-                assert forall|m: int| 0 <= m < ps.len() implies idx.contains(m) by { assert(__sel0@.contains(items[m])); }
-            }
-            assert forall|j: int| 0 <= j < len0 && counts@[j] > 0 implies exists|m: int| 0 <= m < ps.len() && #[trigger] ps[m] == j by {
-                let m = choose|m: int| 0 <= m < items.len() && (#[trigger] items[m]).0 == j;
-                assert(ps[m] == j);
-            }
-            assert forall|k: int| 0 <= k < r.len() implies *(#[trigger] __sel0@[k]).1 == counts@[r[k] as int] by { assert(__sel0@[k] == items[idx[k]]); }
-            assert forall|a: int, b: int| 0 <= a <= b < r.len() implies counts@[#[trigger] r[a] as int] >= counts@[#[trigger] r[b] as int] by {
-                cntx::ls_le_counts(__sel0@[a], __sel0@[b]);
-                assert(ls_le(CmpCounts, __sel0@[a], __sel0@[b]));
-            }
-            assert forall|j: int| 0 <= j < len0 && !#[trigger] r.contains(j as usize) && r.len() > 0 implies counts@[r.last() as int] >= counts@[j] by {
-                if counts@[j] > 0 {
-                    let m = choose|m: int| 0 <= m < items.len() && (#[trigger] items[m]).0 == j;
-                    if idx.contains(m) { let k = choose|k: int| 0 <= k < idx.len() && idx[k] == m; assert(r[k] == j as usize); assert(false); }
-                    cntx::ls_le_counts(__sel0@.last(), items[m]);
-                    assert(ls_le(CmpCounts, __sel0@.last(), items[m]));
-                    assert(*__sel0@[r.len() - 1].1 == counts@[r[r.len() - 1] as int]);
-                }
-            }
-            lemma_prepare_post(dict0, len0, qw, qc, size as int, grams@, counts@, ps, idx, r);
-        }
+        proof { lemma_prepare_tail(dict0, len0, qw, qc, size as int, grams@, counts@, items, __sel0@, idx, __out0@); }
         __out0
     }
     fn collect_grams(text: &TextRef) -> (ret: Vec<[char; 3]>)
